@@ -709,3 +709,25 @@ _hdr("C20", """   GENERALISED (Reject2.v, ComposeMulti3.v): an unsorted pair ANY
      (sorted in-type data CONTAINING the reserved key) for PGMIndex / Elias-Fano / Mapped / Compressed (iff) and Bucketing
      (implication: a too-narrow TopLevelBitSize is a second documented source); MultidimensionalPGMIndex never raises
      invalid_argument: a point whose code is the reserved value has a too-wide coordinate and gets runtime_error.""")
+
+# ---- update totality over the real index, guarded runs, C06 begin/size/empty for either Floating type (ComposeDynTotal/ComposeDynStd2)
+_DT = _D32 + ("ComposeDynTotal", "ComposeDynStd2")
+_add("C05", [("C05_insert_total_std", "@checki", "insert_total_std"), ("C05_erase_total_std", "@checki", "erase_total_std"),
+             ("C05_bulk_total_std", "@checki", "bulk_total_std"), ("C05_ctor_total_std", "@checki", "ctor_total_std"),
+             ("C05_shist_run", "@checki", "shist_run"), ("C05_shist_iff_run", "@checki", "shist_iff_run"),
+             ("C05_cap_after_exact", "@checki", "cap_after_exact"), ("C05_capN_meaning", "@checki", "shist_capN_meaning"),
+             ("C05_default_float_guard", "@checki", "default_float_guard"), ("C05_default_double_guard", "@checki", "default_double_guard"),
+             ("C05_default_float_no_index", "@checki", "default_float_no_index")], imports=_DT)
+_add("C06", [("C06_begin_std", "@check", "C06_begin_std"), ("C06_size_shist", "@check", "C06_size_shist"), ("C06_empty_shist", "@check", "C06_empty_shist")], imports=_DT)
+_add("C15", [("C15_shist_run", "@checki", "shist_run")], imports=_DT)
+_hdr("C05", """   TOTALITY over the real index (ComposeDynTotal.v): C05_insert_total_std / C05_erase_total_std / C05_bulk_total_std /
+     C05_ctor_total_std: an update with a typed key below the sentinel and a non-tombstone value RETURNS Ok and the new state is
+     again a typed history, under the capacity guard evaluated BEFORE the step (cap_after, proved to be exactly the guard on the
+     result: C05_cap_after_exact); C05_shist_run: every finite list of operations that passes the boolean guard runs to Ok at every
+     step; C05_shist_iff_run: the typed histories ARE the guarded runs from a constructor state -- no `= Ok` premise is left.
+     The guard, literally (C05_capN_meaning): base^used_levels <= 2^30 (double) / 2^22 - 1 - max(eps, eps_r+1) (float).  For the
+     DEFAULT configuration (base 8, PGMIndex<K,16>): used_levels <= 7 for float (about 3*10^5 items; C05_default_float_guard) and
+     <= 10 for double (about 1.5*10^8 items).  C05_default_float_no_index: with the default index level (2^24 items) the float
+     theorems never reach a level that owns an index -- they exercise a real per-level index only for a smaller index_level /
+     base, as the examples and the run-time cases do.""")
+_hdr("C06", """   C06_begin_std / C06_size_shist / C06_empty_shist: begin(), size(), empty() over the real index for either Floating type.""")
